@@ -200,6 +200,14 @@ class Check(PropertyCheck):
                 spec = (f"tc{i}", "catch", 0, (spec,), None)
             out = sched.run_program(lambda: vm.call(spec), {}, self.rng, complete_prob=self.rng.choice([0.1, 0.5, 0.9]))
             runs.append((spec, out, None))
+        # one expression demanded twice by the same job, the second demand after the first settled (seeded change C01b)
+        for i in range(20 if self.tier == "quick" else 300):
+            inner = jobgen.gen_spec(self.rng, [], depth=self.rng.randint(0, 2), allow_nocse=False, twins=False, allow_fail=True)
+            spec = (f"ct{i}", "catchthen", 0, (inner,), None)
+            for d in range(self.rng.randint(0, 2)):
+                spec = (f"cu{i}_{d}", self.rng.choice(["list", "catch"]), 0, (spec,), None)
+            out = sched.run_program(lambda: vm.call(spec), {}, self.rng, complete_prob=self.rng.choice([0.1, 0.5, 0.9]))
+            runs.append((spec, out, None))
         for spec, out, rc in runs:
             self.evaluations += 1
             try:
